@@ -110,8 +110,17 @@ def make_dataset(rng: numpy.random.Generator, nv: int = 6, nq: int = 2, na: int 
     if keys is None:
         keys = list(SYSTEM_INDEPENDENT[system or "orthorhombic"])
     # the static table may be tabulated on its own volume mesh (same number of rows, different values)
-    svols = vols if static_mesh == "same" else vols * numpy.linspace(0.985, 1.02, nv) * (1.0 + 0.004 * numpy.cos(numpy.arange(nv)))
-    table = numpy.zeros((nv, len(keys)))
+    if static_mesh == "same":
+        svols = vols
+    elif static_mesh == "shifted":
+        svols = vols * numpy.linspace(0.985, 1.02, nv) * (1.0 + 0.004 * numpy.cos(numpy.arange(nv)))
+    else:
+        # "fewer" / "more": the static table has its OWN number of rows N (elast.dat carries its own N and volume column): static
+        # runs on a subset of the phonon volumes, or on a finer mesh; decreasing volumes inside (almost) the same range
+        ns = max(4, nv - 2) if static_mesh == "fewer" else nv + 3
+        if ns == nv: ns = nv + 1
+        svols = numpy.linspace(vols[0] * 0.995, vols[-1] * 1.004, ns) * (1.0 + 0.003 * numpy.cos(numpy.arange(ns)))
+    table = numpy.zeros((len(svols), len(keys)))
     for c, k in enumerate(keys):
         i, j = int(k[0]), int(k[1])
         if i == j and i <= 3: base = rng.uniform(350.0, 550.0)
@@ -176,15 +185,15 @@ def write_input01(path: str, ds: DataSet, fmt: str = "%.10f", number=None):
 def write_elast(path: str, ds: DataSet, prefix: str = "c", upper: bool = False):
     with open(path, "w") as fp:
         fp.write("V_0 N cellmass synthetic\n")
-        fp.write("%s %d %s\n" % (repr(ds.vref), ds.nv, repr(ds.cellmass)))
+        fp.write("%s %d %s\n" % (repr(ds.vref), len(ds.volumes if ds.static_volumes is None else ds.static_volumes), repr(ds.cellmass)))
         names = [(prefix + k).upper() if upper else prefix + k for k in ds.static_keys]
         fp.write("V " + " ".join(names) + "\n")
-        for iv in range(ds.nv):
-            sv = ds.volumes if ds.static_volumes is None else ds.static_volumes
+        sv = ds.volumes if ds.static_volumes is None else ds.static_volumes
+        for iv in range(len(sv)):
             fp.write(repr(float(sv[iv])) + " " + " ".join(repr(float(x)) for x in ds.static_table[iv]) + "\n")
         if ds.lattice is not None:
             fp.write(" lattice_a lattice_b lattice_c\n")
-            for iv in range(ds.nv):
+            for iv in range(len(ds.lattice)):
                 fp.write(" ".join(repr(float(x)) for x in ds.lattice[iv]) + "\n")
 
 
